@@ -75,6 +75,8 @@ pub struct RunResult {
     pub final_rows: BTreeMap<u8, BTreeMap<(String, u64), (datacake_crdt::HLCTimestamp, Option<Vec<u8>>)>>,
     pub cfg: ClusterCfg,
     pub views_hist: BTreeMap<u8, Vec<(u64, BTreeSet<u8>)>>,
+    /// per node: set/store disagreements at the final quiescent point
+    pub set_store_diffs: BTreeMap<u8, Vec<String>>,
 }
 
 fn validate(sc: &Scenario) -> Result<(), String> {
@@ -374,11 +376,12 @@ pub fn run_cluster(sc: &Scenario, prop: &str) -> Result<RunResult, String> {
     out.sim_ms = cl.elapsed_ms();
     let ops = sh.ops.clone();
     let views_hist = sh.views_hist.clone();
+    let set_store_diffs: BTreeMap<u8, Vec<String>> = sh.snapshots.iter().filter(|((s, _), _)| *s == 1).map(|((_, n), d)| (*n, d.clone())).collect();
     let _ = active_end;
     let cfg = sc.cfg.clone();
     drop(sh);
     drop(cl);
-    Ok(RunResult { out, ops, issued, final_rows, cfg, views_hist })
+    Ok(RunResult { out, ops, issued, final_rows, cfg, views_hist, set_store_diffs })
 }
 
 /// The C01 oracle.
